@@ -1,5 +1,5 @@
 CONSTANTS NK = 4  NM = 2  MaxPasses = 3
-          Shapes <- ShapesQ  Coins <- CoinsD  HashTypes <- HTd  Passes <- DeepPasses
+          Shapes <- ShapesQ  Coins <- CoinsD  HashTypes <- HTd  Passes <- DeepPasses  KcAdds <- NoKcAdds
 SPECIFICATION Spec
 INVARIANTS TypeOK ValidIff SignedSane NeverValidWithFewKeys Confluence ValidDependsOnUnionOnly
 PROPERTIES Monotone ValidUntouched FrameKept UnaskedUntouched
